@@ -1724,7 +1724,9 @@ func (e *Extractor) Document() (*model.Document, []Warning, error) {
 			})
 		}
 
-		doc.AddPage(modelPage)
+		// Not doc.AddPage: it renumbers pages by position, which would lose the
+		// source page number set above when only some pages are selected.
+		doc.Pages = append(doc.Pages, modelPage)
 	}
 
 	return doc, e.warnings, nil
